@@ -137,6 +137,10 @@ func NewTimer(d time.Duration) *Timer {
 	t := &Timer{C: c, c: c, deadline: Now().Add(d), active: true}
 	mu.Lock()
 	if d <= 0 {
+		// a timer that is already due: firing it still takes time on a real clock, so a loop of zero waits (e.g. a
+		// renewal loop recomputing 5/6 of a remaining lifetime that has shrunk below 2 ns) gets past its end instant
+		// instead of spinning on a frozen clock
+		now = now.Add(time.Nanosecond)
 		t.active = false
 		c <- now
 	} else {
